@@ -30,8 +30,10 @@ def cases(draw, tier):
     odd = draw(st.integers(0, 3)) == 0     # classes that are themselves typed / used as values; literals spelling a node's IRI
     ign = draw(st.integers(0, 5)) == 0     # a namespace filter: decided per triple, whatever was seen before
     g = draw(gg.general(max_stmts=25, inst_props=(RDF_TYPE, RDF_TYPE, RDF_TYPE, "http://ex.org/isA"), class_typing=odd,
-                        iri_like_literals=odd, quirks=draw(gg.quirk_set(one_in=4)) + (["same_local_classes"] if draw(st.integers(0, 9)) == 0 else [])
+                        iri_like_literals=odd, quirks=draw(gg.quirk_set(one_in=4)) + (["same_local_classes"] if (draw(st.integers(0, 9)) == 0 and not ign) else [])
                         + (["hash_props"] if ign else [])))
+    # (classes sharing a local name are not combined with a namespace filter: with the typing constraint hidden, shapes sharing a
+    # label are removed by name and the documents cannot tell them apart - every face of C02-GONEREF / C05-DUPLABEL at once)
     cfg = draw(gg.switches())
     cfg["instances_report_mode"] = "mixed"
     if draw(st.integers(0, 5)) == 0:
